@@ -19,7 +19,9 @@
      key    = C<name hex> | N<name hex> | T<name hex>
      value  = the BuildValue bytes (hex) as stored in rule_results.value
      stats  = p1/dev:ino:mode:size:sec:nsec;...   (paths not listed are missing)
-     -> one letter per pair: V | I | O (OverRead) | U (undecodable value) *)
+     -> one letter per pair: V | I | O (OverRead) | U (undecodable value)
+   sigtok <commands> <targets> <key1,key2,...>
+     -> per key the token sequence the model feeds to the rule's signature (name:tok.tok...; 0 = the null signature) *)
 let split_list c s = if s = "" || s = "." then [] else String.split_on_char c s
 let tool_of = function "s" -> TShell | "p" -> TPhony | "m" -> TMkdir | _ -> TSymlink
 let cmd_of_string s = match String.split_on_char ':' s with
@@ -107,4 +109,21 @@ let () =
                | None -> "U"
                | Some v -> (match rule_valid d w (key_of_string key) v with Valid -> "V" | Invalid -> "I" | OverRead -> "O"))
             | _ -> "?") (split_list ',' pairs))
+      | _ -> "ERR args")
+
+let tok_str = function TStr s -> "S" ^ hex_of_bytes s | TBool b -> "B" ^ b2s b | TU64 n -> "U" ^ dec_of_n n
+let toks tag (name, l) = tag ^ hex_of_bytes name ^ ":" ^ String.concat "." (List.map tok_str l)
+let () =
+  register "sigtok" (function
+      | [cmds; targets; keys] ->
+        let d = desc_of cmds targets "." in
+        String.concat "," (List.map (fun k -> match key_of_string k with
+            | KC name -> (match find_cmd d.d_cmds name with
+                | None -> "0"
+                | Some c -> (match c.cm_tool with
+                    | TShell -> toks "s" (sig_tokens c.cm_def)
+                    | TPhony | TMkdir -> toks "e" (ext_sig_tokens c.cm_def)
+                    | TSymlink -> toks "l" (symlink_sig_tokens (match c.cm_def.c_outputs with o :: _ -> o | [] -> []) c.cm_contents c.cm_def.c_inputs)))
+            | KN n -> toks "n" ([], node_sig_tokens (node_def d n))
+            | KT _ -> "0") (split_list ',' keys))
       | _ -> "ERR args")
